@@ -45,8 +45,12 @@ class Env:
 
 
 class State:
-    def __init__(self, n, entry):
+    def __init__(self, n, entry, warm=()):
         self.dec = NMEA2000Decoder()
+        # 'warm' configurations: the decoder has already been handed a pre-assembled message of each stream's PGN
+        # (a log replay through the Actisense entry point) before the frames start
+        for prio, dst, src, pgn, payload in warm:
+            self.dec.decode_actisense_string(wire.actisense_line(prio, dst, src, pgn, payload))
         self.env = Env(n)
 
 
@@ -166,7 +170,8 @@ def make_model(config):
         stale = any(e[4] for e in s.env.st)
         return active >= 2 or stale
 
-    return State(n, entry), enabled, step, key, nontrivial, streams
+    warm = [(3, st.dst, st.src, st.pgn, st.msgs[0]) for st in streams] if config.get("warm") else ()
+    return State(n, entry, warm), enabled, step, key, nontrivial, streams
 
 
 def run_config(config, max_states):
@@ -291,6 +296,9 @@ def configs(ctx):
     out.append(make_config("two-dst-short", [(A, 1, 1, c0102), (A, 1, 2, c012)], None))
     # two addressed streams whose source and destination digits can be split differently (1|23 and 12|3)
     out.append(make_config("two-streams-digit-split-short", [(A, 1, 23, c012), (A, 12, 3, c012)], None))
+    warm = make_config("one-012-short-after-preassembled", [(A, 1, 255, c012)], None)
+    warm["warm"] = True
+    out.append(warm)
     out.append(make_config("one-012-usb", [(A, 1, 255, c012)], 0xFF, "usb"))
     out.append(make_config("one-0102-yd", [(A, 1, 255, c0102)], None, "yd"))
     out.append(make_config("one-012-plain", [(B, 7, 255, c012)], None, "plain"))
